@@ -10,6 +10,7 @@ package optrt
 
 import (
 	"fmt"
+	"math"
 	"math/rand/v2"
 	"os"
 	"reflect"
@@ -106,7 +107,90 @@ type Optic[S any] struct {
 	Expect  func(any) any     // what Read must give after Put(v) (identity for lenses)
 }
 
-func eq(a, b any) bool { return reflect.DeepEqual(a, b) }
+// eq is reflect.DeepEqual made bit-exact for floating point (so -0 and +0 differ, as a lens must store
+// exactly what it is given) and able to look into unexported fields.
+func eq(a, b any) bool { return deepEq(reflect.ValueOf(a), reflect.ValueOf(b), 0) }
+
+func deepEq(a, b reflect.Value, depth int) bool {
+	if !a.IsValid() || !b.IsValid() {
+		return a.IsValid() == b.IsValid()
+	}
+	if a.Type() != b.Type() {
+		return false
+	}
+	if depth > 12 {
+		return true
+	}
+	switch a.Kind() {
+	case reflect.Bool:
+		return a.Bool() == b.Bool()
+	case reflect.Int, reflect.Int8, reflect.Int16, reflect.Int32, reflect.Int64:
+		return a.Int() == b.Int()
+	case reflect.Uint, reflect.Uint8, reflect.Uint16, reflect.Uint32, reflect.Uint64, reflect.Uintptr:
+		return a.Uint() == b.Uint()
+	case reflect.Float32, reflect.Float64:
+		return math.Float64bits(a.Float()) == math.Float64bits(b.Float())
+	case reflect.Complex64, reflect.Complex128:
+		x, y := a.Complex(), b.Complex()
+		return math.Float64bits(real(x)) == math.Float64bits(real(y)) && math.Float64bits(imag(x)) == math.Float64bits(imag(y))
+	case reflect.String:
+		return a.String() == b.String()
+	case reflect.Array:
+		for i := 0; i < a.Len(); i++ {
+			if !deepEq(a.Index(i), b.Index(i), depth+1) {
+				return false
+			}
+		}
+		return true
+	case reflect.Slice:
+		if a.IsNil() != b.IsNil() || a.Len() != b.Len() {
+			return false
+		}
+		for i := 0; i < a.Len(); i++ {
+			if !deepEq(a.Index(i), b.Index(i), depth+1) {
+				return false
+			}
+		}
+		return true
+	case reflect.Struct:
+		for i := 0; i < a.NumField(); i++ {
+			if !deepEq(a.Field(i), b.Field(i), depth+1) {
+				return false
+			}
+		}
+		return true
+	case reflect.Interface:
+		if a.IsNil() || b.IsNil() {
+			return a.IsNil() == b.IsNil()
+		}
+		return deepEq(a.Elem(), b.Elem(), depth+1)
+	case reflect.Pointer:
+		if a.IsNil() || b.IsNil() {
+			return a.IsNil() == b.IsNil()
+		}
+		if a.Pointer() == b.Pointer() {
+			return true
+		}
+		return deepEq(a.Elem(), b.Elem(), depth+1)
+	case reflect.Map:
+		if a.IsNil() != b.IsNil() || a.Len() != b.Len() {
+			return false
+		}
+		if a.Pointer() == b.Pointer() {
+			return true
+		}
+		for _, k := range a.MapKeys() {
+			v := b.MapIndex(k)
+			if !v.IsValid() || !deepEq(a.MapIndex(k), v, depth+1) {
+				return false
+			}
+		}
+		return true
+	case reflect.Chan, reflect.Func, reflect.UnsafePointer:
+		return a.Pointer() == b.Pointer()
+	}
+	return false
+}
 
 func show(v any) string {
 	s := fmt.Sprintf("%#v", v)
